@@ -16,12 +16,37 @@ fn static_entry<T: crate::conv::Conv + desert::BinarySerializer + desert::Binary
     Ok((bytes, back.to_val()))
 }
 
+/// every way of encoding one value: name of the way, bytes or error kind (the size calculator yields that many zeros)
+pub type SinksFn = fn(&Val) -> Vec<(&'static str, Result<Vec<u8>, String>)>;
+
+fn static_sinks<T: crate::conv::Conv + desert::BinarySerializer>(v: &Val) -> Vec<(&'static str, Result<Vec<u8>, String>)> {
+    let x = T::from_val(v);
+    let e = |r: desert::Result<Vec<u8>>| r.map_err(|e| crate::errinfo(&e).kind);
+    vec![
+        ("serialize(Vec<u8>)", e(desert::serialize(&x, Vec::new()))),
+        ("serialize(BytesMut)", e(desert::serialize(&x, bytes::BytesMut::new()).map(|b| b.to_vec()))),
+        ("serialize_to_bytes", e(desert::serialize_to_bytes(&x).map(|b| b.to_vec()))),
+        ("serialize_to_byte_vec", e(desert::serialize_to_byte_vec(&x))),
+        ("serialize(Recording)", e(desert::serialize(&x, crate::Recording { bytes: vec![], calls: 0, bytewise: false }).map(|r| r.bytes))),
+        ("SizeCalculator (that many zero bytes)", e(desert::serialize(&x, desert::SizeCalculator::new()).map(|s| vec![0u8; s.size()]))),
+    ]
+}
+
+/// the same table with the all-sinks function (C15)
+pub fn static_sink_types() -> Vec<(&'static str, Ty, SinksFn)> {
+    static_table().into_iter().map(|(n, t, _, s)| (n, t, s)).collect()
+}
+
 pub fn static_types() -> Vec<(&'static str, Ty, StaticFn)> {
+    static_table().into_iter().map(|(n, t, f, _)| (n, t, f)).collect()
+}
+
+fn static_table() -> Vec<(&'static str, Ty, StaticFn, SinksFn)> {
     use std::collections::{BTreeMap, HashMap, HashSet, LinkedList};
     let a = |t: Ty| Arc::new(t);
     macro_rules! st {
         ($t:ty, $ty:expr) => {
-            (stringify!($t), $ty, static_entry::<$t> as StaticFn)
+            (stringify!($t), $ty, static_entry::<$t> as StaticFn, static_sinks::<$t> as SinksFn)
         };
     }
     vec![
@@ -65,6 +90,21 @@ pub fn static_types() -> Vec<(&'static str, Ty, StaticFn)> {
         st!(Vec<uuid::Uuid>, Ty::Vec(a(Ty::Uuid))),
         st!(Vec<chrono::NaiveDate>, Ty::Vec(a(Ty::NaiveDate))),
         st!(Vec<bigdecimal::num_bigint::BigInt>, Ty::Vec(a(Ty::BigInt))),
+        // types without any size in memory whose encoding is NOT empty, and the two whose encoding is
+        st!(((),), Ty::Tuple(vec![Ty::Unit])),
+        st!([u32; 0], Ty::Array(a(Ty::U32), 0)),
+        st!([(); 3], Ty::Array(a(Ty::Unit), 3)),
+        st!(Vec<((),)>, Ty::Vec(a(Ty::Tuple(vec![Ty::Unit])))),
+        st!((), Ty::Unit),
+        // sequences of every fixed-width primitive (a char is four bytes in memory and two on the wire)
+        st!([char; 3], Ty::Array(a(Ty::Char), 3)),
+        st!(Vec<i16>, Ty::Vec(a(Ty::I16))),
+        st!(Vec<i32>, Ty::Vec(a(Ty::I32))),
+        st!(Vec<i64>, Ty::Vec(a(Ty::I64))),
+        st!(Vec<i128>, Ty::Vec(a(Ty::I128))),
+        st!([bool; 2], Ty::Array(a(Ty::Bool), 2)),
+        st!([f64; 2], Ty::Array(a(Ty::F64), 2)),
+        st!(Vec<(char, char)>, Ty::Vec(a(Ty::Tuple(vec![Ty::Char, Ty::Char])))),
     ]
 }
 
